@@ -156,6 +156,7 @@ class Mini2(Mini):
         self.name_hook = name_hook
         self.func_resolver = func_resolver
         self.frames: List[Any] = []
+        self.try_depth = 0
         self.max_depth = max_depth
         self.followed: List[Any] = []
 
@@ -329,6 +330,18 @@ class Mini2(Mini):
             raise Unsupported(f"{self.what}: attribute `{unparse(n)}`")
         if isinstance(n, ast.Starred):
             raise Unsupported(f"{self.what}: starred expression `{unparse(n)}`")
+        if isinstance(n, ast.Subscript) and not isinstance(n.slice, ast.Slice) and self.try_depth:
+            # inside `try:` a failed lookup is a python exception of the model, not an unknown idiom
+            box = self.ev(n.value, env)
+            k = self.ev(n.slice, env)
+            if isinstance(box, (dict, list, tuple, str)):
+                try:
+                    return box[k]
+                except (KeyError, IndexError) as e:
+                    raise _PyExc(type(e).__name__)
+                except TypeError as e:
+                    raise Unsupported(f"{self.what}: subscript `{unparse(n)}` failed in the model: {e!r}")
+            raise Unsupported(f"{self.what}: subscript `{unparse(n)}`")
         return super().ev(n, env)
 
     def _args(self, n: ast.Call, env):
@@ -544,11 +557,41 @@ class Mini2(Mini):
                 except _Break:
                     break
             return
+        if isinstance(st, ast.Try) and not st.finalbody:
+            self.try_depth += 1
+            try:
+                try:
+                    self._block(st.body, env)
+                finally:
+                    self.try_depth -= 1
+            except _PyExc as e:
+                for h in st.handlers:
+                    names = [] if h.type is None else [dotted(x) or "?" for x in (
+                        h.type.elts if isinstance(h.type, ast.Tuple) else [h.type])]
+                    if h.type is None or any(nm in _EXC_PARENTS.get(e.name, ()) for nm in names):
+                        if h.name:
+                            env[h.name] = e
+                        self._block(h.body, env)
+                        return
+                raise Unsupported(f"{self.what}: {e.name} escapes `try` in the model")
+            self._block(st.orelse, env)
+            return
         if isinstance(st, ast.Continue):
             raise _Continue()
         if isinstance(st, ast.Break):
             raise _Break()
         super()._stmt(st, env)
+
+
+class _PyExc(Exception):
+    """a python exception raised by a lookup of the model inside `try:`"""
+
+    def __init__(self, name):
+        self.name = name
+
+
+_EXC_PARENTS = {"KeyError": ("KeyError", "LookupError", "Exception", "BaseException"),
+                "IndexError": ("IndexError", "LookupError", "Exception", "BaseException")}
 
 
 class _Continue(Exception):
